@@ -319,7 +319,7 @@ TWIN_SHARE = 0.06
 
 
 def gen_case(rng, tier):
-    return _twin.maybe_wrap(rng, _gen_case(rng, tier), TWIN_SHARE,
+    return _twin.maybe_wrap(rng, _gen_case(rng, tier), TWIN_SHARE, gen_other=lambda r: _gen_case(r, tier),
                             ok=lambda c: len(c['S']) <= 12000 and not (c.get('prog') or {}).get('before'))
 
 
